@@ -61,6 +61,23 @@ def _case(draw: Any, max_ops: int, max_first: int) -> dict[str, Any]:
     else:
         n = draw(st.integers(2, 5))
     first = [draw(st.integers(0, max_first)) if draw(st.booleans()) else 0 for _ in range(n)]
+    if route == "3phase" and draw(st.integers(0, 5)) == 0:
+        # one phase lags the others by more than the capacity (50) of the per-phase output receivers inside the
+        # three-phase engine; every *input* backlog stays at one sample (round-robin sends with a barrier per round)
+        lagging = draw(st.integers(0, 2))
+        lag = draw(st.integers(45, 60))
+        tail = draw(st.integers(2, 8))
+        lead = [i for i in range(n) if i % 3 != lagging]
+        late = [i for i in range(n) if i % 3 == lagging]
+        script: list[Any] = []
+        for _ in range(lag):
+            script += [["send", i] for i in lead] + [["settle"]]
+        for _ in range(lag + tail):
+            script += [["send", i] for i in late] + [["settle"]]
+        for _ in range(tail):
+            script += [["send", i] for i in lead] + [["settle"]]
+        script.insert(draw(st.sampled_from([0, 0, len(script) // 3, len(script)])), ["start"])
+        return {"route": route, "n": n, "first": first, "ops": script, "long_lag": lag}
     ops: list[Any] = []
     for _ in range(draw(st.integers(5, max_ops))):
         kind = draw(st.sampled_from(["send"] * 8 + ["settle"] * 3 + ["late"]))
@@ -154,7 +171,7 @@ def run_case(case: Any, pid: str) -> Verdict:
         for op in case["ops"]:
             if op[0] == "send":
                 i = op[1]
-                if sent[i] >= cap - 1:
+                if sent[i] >= (cap - 1 if not case.get("long_lag") else 200):
                     continue
                 k = first[i] + sent[i]
                 await senders[i].send(Sample(world.T0 + timedelta(seconds=k), Quantity(_val(i, k))))
@@ -198,6 +215,12 @@ def run_case(case: Any, pid: str) -> Verdict:
             if value_of(s) != expected(k):
                 v.fail(f"{which}: output stamped tick {k} has value {value_of(s)}, inputs of tick {k} give {expected(k)} "
                        f"(stream i carries (k+1)*1000^i; first ticks {first})")
+        if case.get("long_lag"):
+            # beyond the capacity of the engine's internal per-phase receivers samples are dropped there: only
+            # "computed from inputs of its own timestamp" and "not repeated or reordered" are judged
+            if any(b <= a for a, b in zip(ticks, ticks[1:])):
+                v.fail(f"{which}: output ticks {ticks} are repeated or reordered")
+            continue
         if ticks and ticks != list(range(ticks[0], ticks[0] + len(ticks))):
             v.fail(f"{which}: output ticks {ticks} are not consecutive")
         if which == "main":
@@ -207,6 +230,10 @@ def run_case(case: Any, pid: str) -> Verdict:
         elif ticks and hi >= lo and not v.violations:
             if ticks[-1] != hi:
                 v.fail(f"late consumer's last tick {ticks[-1]} != last complete tick {hi}")
+    if case.get("long_lag"):
+        v.labels.add("three_phase_one_phase_lags_45_to_60_ticks")
+        if case["long_lag"] > 51:
+            v.labels.add("three_phase_lag_beyond_internal_capacity")
     if len(set(first)) > 1:
         v.labels.add("first_ticks_differ")
     if state["lead_at_start"] >= 2:
